@@ -178,7 +178,8 @@ class TexturedTriMesh(TriMesh):
     def from_vector(self, flattened):
         r"""
         Builds a new :class:`TexturedTriMesh` given the `flattened` 1D vector.
-        Note that the trilist, texture, and tcoords will be drawn from self.
+        Note that the trilist, texture, tcoords and landmarks will be drawn
+        from self.
 
         Parameters
         ----------
@@ -190,12 +191,15 @@ class TexturedTriMesh(TriMesh):
         trimesh : :map:`TriMesh`
             A new trimesh created from the vector with ``self`` trilist.
         """
-        return TexturedTriMesh(
+        new_mesh = TexturedTriMesh(
             flattened.reshape([-1, self.n_dims]),
             self.tcoords.points,
             self.texture,
             trilist=self.trilist,
         )
+        if self.has_landmarks:
+            new_mesh.landmarks = self.landmarks
+        return new_mesh
 
     def from_mask(self, mask):
         """
